@@ -6,8 +6,8 @@ EXTENDS TypeGraph, Json
 EncA(a) == <<a.name, a.ref.p, a.ref.n, a.desc, a.req, a.val, a.meta, a.tags.name, a.tags.type, a.x, a.enum>>
 EncN(nd) == <<nd.kind, nd.name, [k \in 1..Len(nd.attrs) |-> EncA(nd.attrs[k])]>>
 EncG(gg) == <<gg.root.p, gg.root.n, [i \in 1..Len(gg.nodes) |-> EncN(gg.nodes[i])]>>
-EncT(t) == <<t.op, t.node, t.idx, t.perm, t.tags.name, t.tags.type>>
-EncJ(j) == <<EncT(j.t), j.eq, j.exp, j.st, j.du, j.mu, j.c>>
+EncT(t) == <<t.op, t.node, t.idx, t.perm, t.tags.name, t.tags.type, t.to>>
+EncJ(j) == <<EncT(j.t), j.eq, j.exp, j.st, j.du, j.mu, j.c, j.na, j.dr>>
 EncS(s) == <<s.side, s.op, s.node, s.idx>>
 Emit ==
   /\ (pc = "done" /\ mode = "hash") =>
